@@ -270,7 +270,7 @@ SAMPLES = {
     "image/png": [b"\x89PNG\r\n\x1a\n" + b"\x00" * 20, b"\x89PNG\r\n\x1a\n\x00\x00\x00\rIHDR\x00\x00\x00\x01\x00\x00\x00\x01\x08\x02\x00\x00\x00", b"GIF89a\x01\x00\x01\x00\x00\x00\x00;", b"\xff\xd8\xff\xe0"],
     "application/zip": [b"PK\x05\x06" + b"\x00" * 18, b"PK\x03\x04\x1b", b"PK"],
     "application/dns-message": [b"\x00\x01\x01\x00\x00\x01\x00\x00\x00\x00\x00\x00\x03www\x07example\x03com\x00\x00\x01\x00\x01", b"\x00\x01", b"\x00\x01\x01\x00\x00\x01\x00\x00\x00\x00\x00\x00\x04\x1b[2J\x00\x00\x10\x00\x01"],
-    "application/vnd.wap.wbxml": [b"\x03\x01\x6a\x00\x45\x03a\x1b\x00\x01", b"\x03"],
+    "application/vnd.wap.wbxml": [b"\x03\x01\x6a\x00\x45\x03a\x1b\x00\x01", b"\x03", b"\x03\x01\x6a\x00\x45\x03a"],
     "application/msgpack": [b"\x82\xa1a\x01\xa1b\xa2\x1b[", b"\xc1", b"\x93\x01\x02"],
     "application/socket.io": [b'42["event",{"a":"\x1b"}]', b"3", b"40"],
     "text/plain": [b"hello\x1b[2J\x07\x00\x7f", b"\xc2\x9b2J", "héllo ✓\u0085".encode(), b"\xff\xfe"],
@@ -292,6 +292,44 @@ def _mutate(rnd, s):
         else:
             s = s[:pos]
     return bytes(s)
+
+
+class _Hang(BaseException):
+    pass
+
+
+def _with_timeout(fn, seconds):
+    """('ok', result) | ('raised', exception) | ('timeout', None).  A view that never returns (blocking queue read, endless
+    loop) is interrupted by an interval timer (SIGALRM; lock waits are interruptible) and reported instead of hanging the check.
+    Outside the main thread a daemon thread is used instead."""
+    import signal
+    import threading
+    if threading.current_thread() is threading.main_thread():
+        def on_alarm(signum, frame):
+            raise _Hang()
+        old = signal.signal(signal.SIGALRM, on_alarm)
+        signal.setitimer(signal.ITIMER_REAL, seconds)
+        try:
+            return ("ok", fn())
+        except _Hang:
+            return ("timeout", None)
+        except Exception as e:
+            return ("raised", e)
+        finally:
+            signal.setitimer(signal.ITIMER_REAL, 0)
+            signal.signal(signal.SIGALRM, old)
+    box = []
+
+    def run():
+        try:
+            box.append(("ok", fn()))
+        except Exception as e:
+            box.append(("raised", e))
+
+    t = threading.Thread(target=run, daemon=True)
+    t.start()
+    t.join(seconds)
+    return box[0] if box else ("timeout", None)
 
 
 def _dns_pool():
@@ -343,7 +381,7 @@ def bounded(tier, seed):
     views = contentviews.registry.available_views()   # "auto" + every registered view
     b.rule = (f"contentviews.prettify_message on real messages for every registered view ({len(views) - 1} views + auto): all byte strings <= 1, strings <= 3 over a 10-byte class "
               "alphabet, structured samples of every format named in the statement and seeded mutations of them, each as HTTP response body with the matching content type, "
-              "and as TCP / UDP / WebSocket message; checked: no exception, text is str, no C0/DEL control character except \\t\\n\\r, (separately) no C1 control character; "
+              "and as TCP / UDP / WebSocket message; checked: the call returns (1.5 s watchdog), no exception, text is str, no C0/DEL control character except \\t\\n\\r, (separately) no C1 control character; "
               "DNS: unpack(reencode(prettify(m))) == m on header fields, questions and all record sections for a message pool over UDP and TCP framing; distinct = (view, kind, content type, body)")
     n_mut = 6 if tier == "quick" else 30
     b.bound = f"{n_mut} mutations per sample; {len(_dns_pool())} DNS messages x 2 framings"
@@ -360,6 +398,7 @@ def bounded(tier, seed):
     small = small[::6] if tier == "quick" else small[::2]
     for s in small:
         bodies.append(("", s))
+    hangs = {}
     d = dumper.Dumper()    # registers the options make_metadata / prettify read through ctx.options
     with taddons.context(d) as tctx:
         for view in views:
@@ -382,10 +421,16 @@ def bounded(tier, seed):
                         message = WebSocketMessage(Opcode.TEXT if kind == "ws-text" else Opcode.BINARY, True, body)
                     inp = {"view": view, "kind": kind, "content_type": ct, "body": body.hex()}
                     b.case((view, kind, ct, body), nontrivial=bool(body))
-                    try:
-                        r = contentviews.prettify_message(message, flow, view)
-                    except Exception as e:
-                        b.fail("views.no_raise", inp, f"{type(e).__name__}: {e}")
+                    wb = view == "wbxml" or (view == "auto" and "wbxml" in ct)
+                    if wb and hangs.get("wbxml", 0) >= 4 and body[:1] == b"\x03":
+                        continue   # the recorded hang (KF-C50-3) has been shown 4 times; do not spend a timeout on every variant
+                    status, r = _with_timeout(lambda: contentviews.prettify_message(message, flow, view), 1.5)
+                    if status == "timeout":
+                        hangs["wbxml" if wb else view] = hangs.get("wbxml" if wb else view, 0) + 1
+                        b.fail("views.terminates/wbxml" if wb else "views.terminates", inp, "no result after 1.5 s (the call never returns)")
+                        continue
+                    if status == "raised":
+                        b.fail("views.no_raise", inp, f"{type(r).__name__}: {r}")
                         continue
                     if not isinstance(r.text, str):
                         b.fail("views.returns_text", inp, repr(type(r.text)))
